@@ -3,7 +3,7 @@ from __future__ import annotations
 
 import ast
 
-from ..formula import Canon, equivalent, parse_expr
+from ..formula import Canon, equivalent, implies, parse_expr, satisfiable
 from ..guards import Rejections, returns_true_formula
 from ..loader import AnalysisError, norm, own_nodes, src
 from .. import stridx
@@ -116,7 +116,8 @@ ROLES = [
      "N == len(M) and abs(T - 100) > K_eps", {"N": name(), "M": name(), "T": name(), "K_eps": eps},
      "complete percentages not summing to 100"),
     ("sys-inconsistent-mass", "system._estimate_system_molecular_weight", "site",
-     "len(W) > 1 and abs(W[i] - W[i + 1]) > K_eps", {"W": name(), "i": lambda t: "§idx" in src(t) or isinstance(t, ast.Name), "K_eps": eps},
+     # the pairwise loop over range(len(W) - 1) is empty for fewer than two estimates: the explicit length test is optional
+     ("len(W) > 1 and abs(W[i] - W[i + 1]) > K_eps", "abs(W[i] - W[i + 1]) > K_eps"), {"W": name(), "i": lambda t: "§idx" in src(t) or isinstance(t, ast.Name), "K_eps": eps},
      "inconsistent system mass estimates"),
     ("sys-unclosed-mixture", "system.System.__init__", "implies", "T.find('.|') >= 0 and F < 0",
      {"T": name(), "F": lambda t: call("find", 2)(t) and "'|'" in src(t)}, "'.|' without closing '|'"),
@@ -163,12 +164,17 @@ def check_roles(eng, res, roles, rule="R-GUARD-INVENTORY"):
         rej = cache.get(fq)
         if rej is None:
             rej = cache[fq] = Rejections(eng, fi)
-        if mode == "implies":
-            ok, binding, detail = rej.rejects(expected, ph)
-            node = fi.node
-        else:
-            ok, binding, detail, site = rej.site_match(expected, ph)
-            node = site.node if site is not None else fi.node
+        alts = expected if isinstance(expected, tuple) else (expected,)
+        for expected in alts:
+            if mode == "implies":
+                ok, binding, detail = rej.rejects(expected, ph)
+                node = fi.node
+            else:
+                ok, binding, detail, site = rej.site_match(expected, ph)
+                node = site.node if site is not None else fi.node
+            if ok:
+                break
+        expected = alts[0]
         n += 1
         res.ob(rule, fi, f"role:{rid}", f"rejects: {what} [{expected}]", node, ok,
                f"no live raising guard with this meaning: {detail}" if not ok else "")
@@ -319,6 +325,9 @@ def _attr_guard_false(eng, fi, expected_src, placeholders, what):
                 continue
             if equivalent(f, want)[0]:
                 found = n
+            elif found is None and satisfiable(want) and implies(want, f)[0]:
+                # the role's case is one of several that share this `return False` (`if A or B: return False`)
+                found = n
     if found is None:
         return False, f"no `return False` under {expected_src} ({what})"
     # the outermost test guarding that return must dominate every non-False return
@@ -436,6 +445,19 @@ def check(eng, res):
     ng = guards_reached(eng, res)
     res.floor("R-GUARD-REACHED", ng, 5)
     unknown_reject(eng, res)
+    # an unknown name that merely *begins* like a known one (`gaussian(…)`) is rejected only because the parameter reader is
+    # handed everything that follows the keyword: a reader that searches for the parenthesis accepts it (shared with C09)
+    from . import c09 as _c09
+
+    res.doc("R-DIST-NAME", "the parameter reader of every family gets the text directly after the keyword (nothing between name and parameters is skipped)")
+    _sub = type(res)(res.prop)
+    _c09.param_order(eng, _sub, rule="R-DIST-NAME")
+    nw = 0
+    for _o in _sub.obligations:
+        if _o.role.endswith(":text-window"):
+            res.obligations.append(_o)
+            nw += 1
+    res.floor("R-DIST-NAME", nw, 6)
     nl = cursor_progress(eng, res)
     res.floor("R-CURSOR-PROGRESS", nl, 5)
     generable_conj(eng, res)
